@@ -160,6 +160,33 @@ func firstDiff(a, b []byte) int {
 	return n
 }
 
+// TestC02_LongValues: single values near the ends of what a 16-bit length can announce (the generators draw short ones):
+// boot file parameters, user and vendor class data, interface id, boot file URL and an unknown option of 255, 256,
+// 32,767, 32,768 and 60,000 octets, alone and followed by a short one.
+func TestC02_LongValues(t *testing.T) {
+	for _, n := range []int{255, 256, 32767, 32768, 60000} {
+		long := bytes.Repeat([]byte{'x'}, n)
+		for i := range long {
+			long[i] = byte('a' + i%23)
+		}
+		for _, o := range []refv6.Opt{
+			{Code: 60, Typ: "bootfileparam", B: [][]byte{long}},
+			{Code: 60, Typ: "bootfileparam", B: [][]byte{[]byte("a"), long[:min(n, 65000)], []byte("b")}},
+			{Code: 15, Typ: "userclass", B: [][]byte{long, []byte("u")}},
+			{Code: 16, Typ: "vendorclass", N: []uint64{9}, B: [][]byte{[]byte("v"), long}},
+			{Code: 18, Typ: "ifaceid", B: [][]byte{long}},
+			{Code: 59, Typ: "bootfileurl", B: [][]byte{long}},
+			{Code: 65010, Typ: "opaque", B: [][]byte{long}},
+		} {
+			m := &refv6.Msg{Type: 7, Xid: [3]byte{1, 2, 3}, Opts: []refv6.Opt{o, {Code: 65011, Typ: "opaque", B: [][]byte{{1}}}}}
+			if enc := refv6.EncodeMsg(m); len(enc) <= 65535 {
+				c02.one(t, obs.Hex(enc))
+			}
+		}
+	}
+	c02.rec.Class("long single values")
+}
+
 func TestC02_Rapid(t *testing.T) {
 	if err := v6Cov().err; err != nil {
 		t.Fatalf("cannot extract the option list from the source tree: %v", err)
